@@ -10,6 +10,10 @@ checks = {
  "C01": dict(cat="other", tech="bounded symbolic execution of go/ssa + SMT (z3), AES as uninterpreted function",
     text="Every assertion of the per-gate inductive garbling step is an SMT obligation over all labels, R, AES keys and input bits (AES uninterpreted); gate type and wiring over 2-4 wires case-split by the solver. Bounded verification, not a proof: whole-circuit composition rests on the re-established invariant.",
     ref="DESIGN.md C01", engine="gosymx"),
+ "C03": dict(cat="translation_validation", tech="SMT miter (z3): real compiler output vs reference term generated from the same AST as the source, all inputs; plus the shipped @Test oracle",
+    text="For each generated MPCL program (documented subset: wrapping intN/uintN arithmetic, comparisons, boolean logic, constant shifts, casts, if/else with early return, unrolled loops, arrays, structs, multi-result calls, nested branch merges) the real compiler's circuit is proved equal to the reference semantics for ALL inputs by z3; the program quantifier is a seeded, stated family. Every shipped @Test vector (except the 5 sha512 programs whose circuit files are empty in this sandbox) is checked with the repository's own oracle.",
+    ref="DESIGN.md C03", engine="circtv", script="python3-vt",
+    note="Trusted base: z3; the gate-to-term translation; the generator's reference semantics (only documented forms; forms found to be undocumented were removed from the grammar, see DESIGN.md). Programs whose miter does not close in the time budget are excluded and listed (reduced bound)."),
  "C07": dict(cat="translation_validation", tech="SMT miter (z3) of the real builders' gate lists against bit-vector reference semantics, all operand values",
     text="Each real builder invocation (operator x operand widths x result width x target x algorithm) is compiled by the real circuits.Compiler and its output is proved equal to the exact function mod 2^wz for ALL operand values by z3 (per-output-bit incremental miter); the width/configuration quantifier is an enumerated, stated family. Counterexamples are replayed through the real Circuit.Compute.",
     ref="DESIGN.md C07", engine="circtv", script="python3-vt",
